@@ -1,19 +1,26 @@
 // Command hgen runs the code generators as libraries several times inside ONE process
-// (the binaries `generator` / `proto_generator` are one-shot) and compares the results:
+// (the binaries `generator` / `proto_generator` are one-shot): a sequence of generations,
+// each with one configuration variant and one map-order mode, e.g.
 //
-//	run 1: canonical map order           (reference)
-//	run 2: canonical map order again     (state left behind by run 1 must not matter)
-//	run 3: seeded random map order       (order and left-over state together)
+//	-seq a,a,a -modes canon,canon,rand:7     the same configuration three times
+//	-seq b,c,a -modes rand:3,canon,canon     other configurations first, then a
 //
-// It prints one JSON line. It is compiled inside the instrumented scratch copy.
+// The output of generation i is written to <out>/<i>.txt (or <i>.err). The driver compares
+// every output with the output the same variant gives when it is the only generation of a
+// fresh process: whatever a process generated before (package-level tables, caches, name
+// registries) must not change what it generates next. It is compiled inside the
+// instrumented scratch copy.
 package main
 
 import (
+	"crypto/sha256"
 	"encoding/json"
 	"flag"
 	"fmt"
 	"os"
+	"path/filepath"
 	"sort"
+	"strconv"
 	"strings"
 
 	"github.com/openconfig/ygot/genutil"
@@ -24,12 +31,163 @@ import (
 	"verifsim/simrt"
 )
 
+// Variants lists the configuration variants of a tool. Variant "a" is the configuration the
+// fresh-process legs of the check use as well; the others differ from it in the options a
+// process-level cache could forget to key on (package names and suffixes, compression, name
+// shortening, union style, message nesting ...).
+var Variants = map[string][]string{"go": {"a", "b", "c"}, "path": {"a", "b", "c", "d"}, "proto": {"a", "b", "c"}}
+
+func generate(tool, variant string, compress bool, files, inc []string) (string, error) {
+	switch variant {
+	case "b":
+		compress = !compress
+	}
+	cb, err := genutil.TranslateToCompressBehaviour(compress, false, false)
+	if err != nil {
+		return "", err
+	}
+	switch tool {
+	case "go":
+		tr := ygen.TransformationOpts{CompressBehaviour: cb, GenerateFakeRoot: true, FakeRootName: "device", EnumerationsUseUnderscores: true,
+			ShortenEnumLeafNames: true, UseDefiningModuleForTypedefEnumNames: true}
+		g := gogen.GoOpts{PackageName: "vout", GenerateJSONSchema: true, GenerateSimpleUnions: true, GenerateGetters: true, GenerateRenameMethod: true,
+			GenerateAppendMethod: true, GenerateDeleteMethod: true, GenerateLeafGetters: true, GeneratePopulateDefault: true, AddAnnotationFields: true,
+			AnnotationPrefix: gogen.DefaultAnnotationPrefix, YgotImportPath: genutil.GoDefaultYgotImportPath, YtypesImportPath: genutil.GoDefaultYtypesImportPath,
+			GoyangImportPath: genutil.GoDefaultGoyangImportPath, ValidateFunctionName: "Validate", AppendEnumSuffixForSimpleUnionEnums: true, IncludeModelData: true}
+		switch variant {
+		case "b":
+			tr.FakeRootName = "root"
+			tr.ShortenEnumLeafNames = false
+			tr.EnumerationsUseUnderscores = false
+			tr.UseDefiningModuleForTypedefEnumNames = false
+			g.PackageName = "other"
+			g.GenerateSimpleUnions = false
+			g.AppendEnumSuffixForSimpleUnionEnums = false
+			g.ValidateFunctionName = "ΛValidate"
+			g.SchemaVarName = "otherSchema"
+		case "c":
+			tr.SkipEnumDeduplication = true
+			tr.ExcludeState = compress
+			g.PackageName = "third"
+			g.GenerateOrderedListsAsUnorderedMaps = true
+			g.IgnoreShadowSchemaPaths = compress
+			g.GenerateLeafSetters = true
+			g.AddYangPresence = true
+			g.IncludeDescriptions = true
+		}
+		cg := gogen.New("hgen", ygen.IROptions{TransformationOptions: tr, AppendEnumSuffixForSimpleUnionEnums: g.AppendEnumSuffixForSimpleUnionEnums}, g)
+		out, errs := cg.Generate(files, inc)
+		if errs != nil {
+			return "", fmt.Errorf("%v", errs)
+		}
+		var b strings.Builder
+		b.WriteString(out.CommonHeader + out.OneOffHeader)
+		for _, s := range out.Structs {
+			b.WriteString(s.String())
+		}
+		b.WriteString(strings.Join(out.Enums, "\n") + out.EnumMap + out.EnumTypeMap + out.JSONSchemaCode + string(out.RawJSONSchema))
+		return b.String(), nil
+	case "path":
+		pcg := &ypathgen.GenConfig{PackageName: "vout", GoImports: ypathgen.GoImports{SchemaStructPkgPath: "", YgotImportPath: genutil.GoDefaultYgotImportPath},
+			FakeRootName: "device", PathStructSuffix: "Path", GeneratingBinary: "hgen", GenerateWildcardPaths: true, ShortenEnumLeafNames: true,
+			UseDefiningModuleForTypedefEnumNames: true, AppendEnumSuffixForSimpleUnionEnums: true}
+		switch variant {
+		case "b":
+			pcg.PackageName = "other"
+			pcg.FakeRootName = "root"
+			pcg.PathStructSuffix = "P"
+			pcg.SimplifyWildcardPaths = true
+			pcg.ShortenEnumLeafNames = false
+		case "c":
+			pcg.SplitByModule = true
+			pcg.PackageSuffix = "path"
+			pcg.BaseImportPath = "example.com/verif/out"
+			pcg.GoImports.SchemaStructPkgPath = "example.com/verif/out/structs"
+			pcg.PackageName = "device"
+		case "d":
+			pcg.SplitByModule = true
+			pcg.PackageSuffix = "pathstructs"
+			pcg.TrimPackagePrefix = "verif"
+			pcg.BaseImportPath = "example.com/verif/other"
+			pcg.GoImports.SchemaStructPkgPath = "example.com/verif/out/structs"
+			pcg.PackageName = "device"
+		}
+		if compress {
+			pcg.PreferOperationalState = variant == "b"
+		}
+		out, _, errs := pcg.GeneratePathCode(files, inc)
+		if errs != nil {
+			return "", fmt.Errorf("%v", errs)
+		}
+		var names []string
+		for n := range out {
+			names = append(names, n)
+		}
+		sort.Strings(names)
+		var b strings.Builder
+		for _, n := range names {
+			b.WriteString("== " + n + "\n" + out[n].String())
+		}
+		return b.String(), nil
+	case "proto":
+		tr := ygen.TransformationOpts{CompressBehaviour: cb, GenerateFakeRoot: true, FakeRootName: "device"}
+		po := protogen.ProtoOpts{PackageName: "vout", BaseImportPath: "example.com/verif", YwrapperPath: protogen.DefaultYwrapperPath, YextPath: protogen.DefaultYextPath,
+			AnnotateSchemaPaths: true, AnnotateEnumNames: true, NestedMessages: false, EnumPackageName: "enums", GoPackageBase: "example.com/verif/out"}
+		switch variant {
+		case "b":
+			po.PackageName = "other"
+			po.EnumPackageName = "e"
+			po.BaseImportPath = "example.com/other"
+			po.GoPackageBase = ""
+			po.AnnotateEnumNames = false
+		case "c":
+			po.NestedMessages = true
+			po.AnnotateSchemaPaths = false
+			tr.FakeRootName = "root"
+		}
+		cg := protogen.New("hgen", ygen.IROptions{TransformationOptions: tr, NestedDirectories: po.NestedMessages, AbsoluteMapPaths: true, AppendEnumSuffixForSimpleUnionEnums: true}, po)
+		out, errs := cg.Generate(files, inc)
+		if errs != nil {
+			return "", fmt.Errorf("%v", errs)
+		}
+		var names []string
+		for n := range out.Packages {
+			names = append(names, n)
+		}
+		sort.Strings(names)
+		var b strings.Builder
+		for _, n := range names {
+			p := out.Packages[n]
+			b.WriteString("== " + strings.Join(p.FilePath, "/") + "\n" + p.Header + "\n" + strings.Join(p.Enums, "\n") + "\n" + strings.Join(p.Messages, "\n"))
+		}
+		return b.String(), nil
+	}
+	return "", fmt.Errorf("unknown tool %q", tool)
+}
+
+type genResult struct {
+	Variant string `json:"variant"`
+	Mode    string `json:"mode"`
+	OK      bool   `json:"ok"`
+	Err     string `json:"err,omitempty"`
+	Bytes   int    `json:"bytes"`
+	SHA     string `json:"sha,omitempty"`
+	Dev     int    `json:"deviating_sites"`
+}
+
 func main() {
 	tool := flag.String("tool", "go", "go|path|proto")
 	compress := flag.Bool("compress", false, "")
 	paths := flag.String("path", "", "comma separated include paths")
-	seed := flag.Uint64("seed", 1, "seed of the random-order run")
+	seq := flag.String("seq", "a", "comma separated configuration variants, one generation each")
+	modes := flag.String("modes", "canon", "comma separated map-order modes (canon | rev | rand:<seed>), one per generation")
+	outdir := flag.String("out", "", "directory for the outputs")
+	listVariants := flag.Bool("variants", false, "print the variants of -tool and exit")
 	flag.Parse()
+	if *listVariants {
+		emit(Variants[*tool])
+		return
+	}
 	files := flag.Args()
 	var inc []string
 	for _, p := range strings.Split(*paths, ",") {
@@ -37,122 +195,48 @@ func main() {
 			inc = append(inc, p+"/...")
 		}
 	}
-	cb, err := genutil.TranslateToCompressBehaviour(*compress, false, false)
-	if err != nil {
+	vs := strings.Split(*seq, ",")
+	ms := strings.Split(*modes, ",")
+	if len(ms) != len(vs) || *outdir == "" {
+		fail(fmt.Errorf("-seq and -modes must have the same length and -out is required"))
+	}
+	if err := os.MkdirAll(*outdir, 0o755); err != nil {
 		fail(err)
 	}
-	gen := func() (string, error) {
-		switch *tool {
-		case "go":
-			cg := gogen.New("hgen", ygen.IROptions{
-				TransformationOptions: ygen.TransformationOpts{CompressBehaviour: cb, GenerateFakeRoot: true, FakeRootName: "device", EnumerationsUseUnderscores: true,
-					ShortenEnumLeafNames: true, UseDefiningModuleForTypedefEnumNames: true},
-			}, gogen.GoOpts{PackageName: "vout", GenerateJSONSchema: true, GenerateSimpleUnions: true, GenerateGetters: true, GenerateRenameMethod: true,
-				GenerateAppendMethod: true, GenerateDeleteMethod: true, GenerateLeafGetters: true, GeneratePopulateDefault: true, AddAnnotationFields: true,
-				AnnotationPrefix: gogen.DefaultAnnotationPrefix, YgotImportPath: genutil.GoDefaultYgotImportPath, YtypesImportPath: genutil.GoDefaultYtypesImportPath,
-				GoyangImportPath: genutil.GoDefaultGoyangImportPath, ValidateFunctionName: "Validate", AppendEnumSuffixForSimpleUnionEnums: true, IncludeModelData: true})
-			out, errs := cg.Generate(files, inc)
-			if errs != nil {
-				return "", fmt.Errorf("%v", errs)
+	var res []genResult
+	for i, v := range vs {
+		switch {
+		case ms[i] == "canon":
+			simrt.Configure(simrt.MapCanon, 0, nil)
+		case ms[i] == "rev":
+			simrt.Configure(simrt.MapReverse, 0, nil)
+		case strings.HasPrefix(ms[i], "rand:"):
+			s, err := strconv.ParseUint(ms[i][5:], 10, 64)
+			if err != nil {
+				fail(err)
 			}
-			var b strings.Builder
-			b.WriteString(out.CommonHeader + out.OneOffHeader)
-			for _, s := range out.Structs {
-				b.WriteString(s.String())
-			}
-			b.WriteString(strings.Join(out.Enums, "\n") + out.EnumMap + out.EnumTypeMap + out.JSONSchemaCode + string(out.RawJSONSchema))
-			return b.String(), nil
-		case "path":
-			pcg := &ypathgen.GenConfig{PackageName: "vout", GoImports: ypathgen.GoImports{SchemaStructPkgPath: "", YgotImportPath: genutil.GoDefaultYgotImportPath},
-				FakeRootName: "device", PathStructSuffix: "Path", GeneratingBinary: "hgen", GenerateWildcardPaths: true, ShortenEnumLeafNames: true,
-				UseDefiningModuleForTypedefEnumNames: true, AppendEnumSuffixForSimpleUnionEnums: true}
-			out, _, errs := pcg.GeneratePathCode(files, inc)
-			if errs != nil {
-				return "", fmt.Errorf("%v", errs)
-			}
-			var names []string
-			for n := range out {
-				names = append(names, n)
-			}
-			sort.Strings(names)
-			var b strings.Builder
-			for _, n := range names {
-				b.WriteString("== " + n + "\n" + out[n].String())
-			}
-			return b.String(), nil
-		case "proto":
-			cg := protogen.New("hgen", ygen.IROptions{TransformationOptions: ygen.TransformationOpts{CompressBehaviour: cb, GenerateFakeRoot: true, FakeRootName: "device"}},
-				protogen.ProtoOpts{PackageName: "vout", BaseImportPath: "example.com/verif", YwrapperPath: protogen.DefaultYwrapperPath, YextPath: protogen.DefaultYextPath,
-					AnnotateSchemaPaths: true, AnnotateEnumNames: true, NestedMessages: false, EnumPackageName: "enums", GoPackageBase: "example.com/verif/out"})
-			out, errs := cg.Generate(files, inc)
-			if errs != nil {
-				return "", fmt.Errorf("%v", errs)
-			}
-			var names []string
-			for n := range out.Packages {
-				names = append(names, n)
-			}
-			sort.Strings(names)
-			var b strings.Builder
-			for _, n := range names {
-				p := out.Packages[n]
-				b.WriteString("== " + strings.Join(p.FilePath, "/") + "\n" + p.Header + "\n" + strings.Join(p.Enums, "\n") + "\n" + strings.Join(p.Messages, "\n"))
-			}
-			return b.String(), nil
+			simrt.Configure(simrt.MapRandom, s, nil)
+		default:
+			fail(fmt.Errorf("unknown mode %q", ms[i]))
 		}
-		return "", fmt.Errorf("unknown tool %q", *tool)
-	}
-	res := map[string]any{"tool": *tool, "compress": *compress}
-	simrt.Configure(simrt.MapCanon, 0, nil)
-	ref, err := gen()
-	if err != nil {
-		res["skipped"] = err.Error()
-		emit(res)
-		return
-	}
-	simrt.Configure(simrt.MapCanon, 0, nil)
-	again, err2 := gen()
-	simrt.Configure(simrt.MapRandom, *seed, nil)
-	random, err3 := gen()
-	res["bytes"] = len(ref)
-	res["second_run_same"] = err2 == nil && again == ref
-	res["random_order_run_same"] = err3 == nil && random == ref
-	if err2 != nil {
-		res["second_run_error"] = err2.Error()
-	}
-	if err3 != nil {
-		res["random_run_error"] = err3.Error()
-	}
-	if again != ref {
-		res["second_run_diff"] = firstDiff(ref, again)
-	}
-	if random != ref {
-		res["random_run_diff"] = firstDiff(ref, random)
-		res["deviating_sites"] = len(simrt.Main().Deviated)
-	}
-	emit(res)
-}
-
-func firstDiff(a, b string) string {
-	n := len(a)
-	if len(b) < n {
-		n = len(b)
-	}
-	i := 0
-	for i < n && a[i] == b[i] {
-		i++
-	}
-	lo := i - 80
-	if lo < 0 {
-		lo = 0
-	}
-	hi := func(s string) int {
-		if i+120 < len(s) {
-			return i + 120
+		simrt.ResetStats()
+		out, err := generate(*tool, v, *compress, files, inc)
+		r := genResult{Variant: v, Mode: ms[i], OK: err == nil, Bytes: len(out), Dev: len(simrt.Main().Deviated)}
+		if err != nil {
+			r.Err = err.Error()
+			if len(r.Err) > 300 {
+				r.Err = r.Err[:300]
+			}
+			os.WriteFile(filepath.Join(*outdir, fmt.Sprintf("%d.err", i)), []byte(err.Error()), 0o644)
+		} else {
+			r.SHA = fmt.Sprintf("%x", sha256.Sum256([]byte(out)))
+			if err := os.WriteFile(filepath.Join(*outdir, fmt.Sprintf("%d.txt", i)), []byte(out), 0o644); err != nil {
+				fail(err)
+			}
 		}
-		return len(s)
+		res = append(res, r)
 	}
-	return fmt.Sprintf("first difference at byte %d: reference …%q / this run …%q", i, a[lo:hi(a)], b[lo:hi(b)])
+	emit(map[string]any{"tool": *tool, "compress": *compress, "gens": res})
 }
 
 func emit(v any) {
